@@ -78,6 +78,8 @@ pub enum React {
     /// ask for more and then leave, from inside the same handler
     PullTerminate,
     PullError,
+    /// two-subscription profiles: pull on the OTHER subscription's talkback from inside this handler
+    PullOther,
 }
 
 #[derive(Clone, Debug, Serialize, Deserialize, PartialEq, Eq, Hash)]
@@ -356,7 +358,7 @@ impl<'a, 'b> Gen<'a, 'b> {
         }
     }
 
-    fn sink_spec(&mut self, pullcount: bool) -> SinkSpec {
+    fn sink_spec(&mut self, pullcount: bool, cross: bool) -> SinkSpec {
         let d = &mut *self.d;
         if pullcount {
             let react_default = d.pick(&[React::Pull, React::Nothing]);
@@ -392,7 +394,15 @@ impl<'a, 'b> Gen<'a, 'b> {
                     React::PullTerminate,
                     React::PullError,
                 ];
-                let react = (0..n).map(|_| d.pick(&R)).collect();
+                let mut react: Vec<React> = (0..n).map(|_| d.pick(&R)).collect();
+                if cross {
+                    // sprinkle cross-subscription pulls
+                    for r in react.iter_mut() {
+                        if d.below(4) == 3 {
+                            *r = React::PullOther;
+                        }
+                    }
+                }
                 let react_default = d.pick(&[React::Nothing, React::Pull]);
                 SinkSpec { react, react_default, credit: false, pull_after_end: false }
             }
@@ -533,7 +543,8 @@ pub fn decode(profile: Profile, bytes: &[u8], max_steps: usize) -> Scenario {
     let late_ok = g.late_ok.clone();
     let puppets: Vec<PuppetSpec> =
         (0..n_pup).map(|i| g.puppet_spec(late_ok[i], pullcount, no_sync)).collect();
-    let mut sinks: Vec<SinkSpec> = (0..n_sinks).map(|_| g.sink_spec(pullcount)).collect();
+    let cross = matches!(profile, Profile::Indep | Profile::Dual(_));
+    let mut sinks: Vec<SinkSpec> = (0..n_sinks).map(|_| g.sink_spec(pullcount, cross)).collect();
     if profile == Profile::FromIterDirect {
         sinks[0].pull_after_end = g.d.below(3) == 2;
     }
